@@ -24,6 +24,7 @@ def run(ctx):
     table_checks(ctx, pols, cfgs, {"term", "stable", "pct"})
     K = make_kinds(ctx.model)
     order.ord1(ctx, K)
+    order.ord2_name(ctx)    # with_name()/with_suffix() never store a dot segment under an authority (a second parse would remove it)
     order.ord2(ctx, K)      # the dot test looks at the quoted text (a %2E decoded by requoting is seen)
     host.h1(ctx)
     host.h2(ctx)
